@@ -18,7 +18,7 @@ from ..report import AnalysisError
 from ..template import Evaluator, TObj, TStr, Sym, lit, Lit, FqnS, TRUE, FALSE
 from ..cxxlex import lex, toks_text, tok_text
 from ..embedded_cxx import extract_headers, Scratch, clang_check, first_error, render
-from .shared import SUPPORT_MODULES
+from .shared import SUPPORT_MODULES, alpha_text, expand_aliases
 
 
 def check(ctx):
@@ -114,8 +114,9 @@ def _closure(ctx):
         for c in iter_own_nodes(m.node):
             if isinstance(c, ast.Call) and getattr(c.func, 'id', '') == 'GeneratedContent':
                 kw = {k.arg: k.value for k in c.keywords}
-                names.append(ast.unparse(kw.get('filename', c.args[0] if c.args else ast.Constant(value=''))))
-    ok = len(names) == 2 and names[0] == "f'{cpp.target_file_basename}.hh'" and names[1] == "f'{cpp.target_file_basename}.cc'"
+                names.append(ast.unparse(expand_aliases(m, kw.get('filename', c.args[0] if c.args else ast.Constant(value='')))))
+    base_ = "self._recipe.cpp_elements.target_file_basename"
+    ok = len(names) == 2 and names[0] == "f'{%s}.hh'" % base_ and names[1] == "f'{%s}.cc'" % base_
     run.add('C06.closure', hdr.module.name, 'Builder', f'file names {names}', ok,
             'header and source are named <target>.hh / <target>.cc' if ok else f'unexpected file names {names}')
     if n < 4:
@@ -150,7 +151,7 @@ def _pair(ctx):
             if isinstance(n, ast.Attribute) and isinstance(n.ctx, ast.Load):
                 for suf in suffixes:
                     if n.attr == suf or n.attr.endswith('_' + suf.split('_')[-1]) and n.attr.split('_')[-1] == suf.split('_')[-1]:
-                        base = ast.unparse(n.value)
+                        base = ast.unparse(expand_aliases(m, n.value))
                         attr = n.attr
                         key = base + ('.' + attr.rsplit('_', 1)[0] if attr not in ('as_decl', 'as_def') else '')
                         out.add(key)
@@ -180,7 +181,9 @@ def _pair(ctx):
                              if isinstance(x, ast.Assign) and isinstance(x.targets[0], ast.Name)}
                     if isinstance(it, ast.Name) and it.id in defs_:
                         it = defs_[it.id]
-                    return ast.unparse(it) + (' if ' + ast.unparse(n.generators[0].ifs[0]) if n.generators[0].ifs else '')
+                    probe = ast.ListComp(elt=ast.Name(id='_', ctx=ast.Load()), generators=[ast.comprehension(
+                        target=n.generators[0].target, iter=it, ifs=n.generators[0].ifs, is_async=0)])
+                    return alpha_text(probe)
             return None
         sd, sfn = source_of(md, ad), source_of(mf, af)
         ok = sd is not None and sd == sfn
@@ -300,7 +303,7 @@ def _constants(ctx, thorough: bool):
     run = ctx.run
     try:
         hs = extract_headers(ctx)
-        hs2 = extract_headers(ctx, ('Other', 'Lib')) if thorough else None
+        hs2 = extract_headers(ctx, ('Other', 'Lib'))      # a second namespace prefix: both sets must coexist in one program
     except AnalysisError as exc:
         run.error('C06.constants', 'dznpy.support_files', 'create_header', str(exc), str(exc))
         return
@@ -336,11 +339,13 @@ def _constants(ctx, thorough: bool):
         run.add('C06.constants', mod, 'create_header', 'all six together (reverse order)', rc == 0,
                 'inclusion order does not matter' if rc == 0 else f'reverse inclusion order: {first_error(err)}')
         _odr_rule(ctx, sc, hs, allinc)
+        ns1, ns2 = hs['strict_port']['namespace'], hs2['strict_port']['namespace']
+        use_both = f'\n{ns1}::ILog log_a;\n{ns2}::ILog log_b;\n{ns1}::MutexWrapped<int> mw_a;\n{ns2}::MutexWrapped<int> mw_b;\n'
+        rc, err = clang_check(sc, 'two_prefixes.cc', allinc + ''.join(f'#include "{v["filename"]}"\n' for v in hs2.values()) + use_both)
+        run.add('C06.constants', mod, 'create_header', 'two namespace prefixes in one TU', rc == 0,
+                'support headers generated with different prefixes coexist (both namespaces are declared and usable)' if rc == 0 else
+                f'two prefixes in one TU: {first_error(err)}')
         if thorough:
-            rc, err = clang_check(sc, 'two_prefixes.cc', allinc + ''.join(f'#include "{v["filename"]}"\n' for v in hs2.values()))
-            run.add('C06.constants', mod, 'create_header', 'two namespace prefixes in one TU', rc == 0,
-                    'support headers generated with different prefixes coexist' if rc == 0 else
-                    f'two prefixes in one TU: {first_error(err)}')
             ns = hs['strict_port']['namespace']
             cap_is_template = bool(re.search(r'template\s*<[^>]*>\s*(?:\[\[nodiscard\]\]\s*)?[\w:<>&\* ]+\s+CapitalizeFirstChar\s*\(',
                                              hs['misc_utils']['contents']))
